@@ -61,7 +61,11 @@ C["C16"]["harnesses"] += [
     H("ZZDecodePeersCompact", "internal/tracker", "compact peer list: any bytes (len <= 19) give an error or exactly len/6 well-formed addresses", T(30, 600), T(30, 600)),
     H("ZZUDPParseAnnounce", "internal/tracker/udptracker", "UDP announce reply: any bytes (len <= 38) give an error or header fields + well-formed peers; no panic, no read past the data", T(45, 600), T(45, 600)),
 ]
-C["C16"]["assumptions"] += ["encoding/binary.Read/Write modelled per type (fixed-size big-endian layout) in the engine"]
+C["C16"]["harnesses"] += [
+    H("ZZUDPTransport", "internal/tracker/udptracker", "real shared UDP transport (Transport.Run, readLoop, Do, connect and retry goroutines) with two torrents announcing to one tracker; the harness is the tracker: connect answered / refused / a torrent stopped meanwhile, the two announce transactions answered in either order with arbitrary reply bytes (0..1 peers), an arbitrary stray datagram (7/16/26 bytes, any ids), transport closed before the second answer; goroutines scheduled cooperatively with 1 scheduling point per path forking over every runnable goroutine (select with several ready cases always forks): every Announce returns, a successful one returns exactly the content of the first datagram bearing its own transaction id, Close returns and closes the socket", T(40, 1800, 8, 8, flags=["-sched", "1"]), T(40, 3000, 16, 9, flags=["-sched", "1"]), replay="model"),
+    H("ZZAnnouncerRetry", "internal/announcer", "real PeriodicalAnnouncer.Run: three announces in a row end without a reply, each arbitrarily as tracker failure, undecodable reply, or an abort the announcer did not ask for (context.Canceled from a connection shared with a stopped torrent): each time the announcer leaves 'contacting', arms a retry within the back-off bounds, and announces again when it fires", T(45, 900), T(45, 900), replay="model"),
+]
+C["C16"]["assumptions"] += ["encoding/binary.Read/Write modelled per type (fixed-size big-endian layout) in the engine", "UDP transport: socket, resolver, retry ticker (fires once per transaction) and random transaction ids (distinct) replaced; retransmission timing, connection-id expiry and transaction-id collisions outside the claim", "HTTP tracker replies (bencode/reflection) not encoded"]
 C["C15"] = dict(assumptions=["encoding/binary.Write modelled per type (fixed-size big-endian layout) in the engine; natively the real encoding/binary runs"], harnesses=[
     H("ZZUDPAnnouncePacket", "internal/tracker/udptracker", "UDP announce datagram == BEP 15 layout for arbitrary info-hash, peer id (all 20 bytes), counters, event, num-want, port, connection/transaction id, url-data <= 4 bytes", T(45, 600, 4, 4), T(45, 900, 4, 4)),
 ])
